@@ -165,13 +165,21 @@ class C19(Check):
         fd, path = tempfile.mkstemp(suffix='.blt')
         saved_prog = Election.__dict__['prog']
         saved_out = sys.stdout
+        saved_cwd = os.getcwd()
+        scratch = tempfile.mkdtemp(prefix='c19-')
+        os.chdir(scratch)
         try:
             with os.fdopen(fd, 'w') as f:
                 f.write(text)
             for k in range(c['lo'], c['hi'] + 1, c['step']):
-                for want in (('report',), ('dump',), ('json',), ('dump', 'json')):
+                for want in (('report',), ('dump',), ('json',), ('dump', 'json'), ('report', 'profile')):
                     acc.evaluations += 1
                     opts = dict(c['cfg'], path=path, report='report' in want, dump='dump' in want, json='json' in want)
+                    if 'profile' in want:
+                        if k % 5:
+                            continue
+                        opts['profile'] = 1      # the driver's cProfile path (writes profile.out into the current directory)
+                        want = ('report',)
                     inj = Injector(k)
                     Election.prog = _real_prog()
                     sys.stdout = io.StringIO()
@@ -211,7 +219,10 @@ class C19(Check):
                         acc.violation('C19|cli|%s-unmarked' % '+'.join(want), 'output carries the interruption marker %d times: %s' % (out.count(MARK), where), one)
                     acc.nontrivial_count += 1
         finally:
+            os.chdir(saved_cwd)
             os.unlink(path)
+            import shutil
+            shutil.rmtree(scratch, ignore_errors=True)
 
     def check(self, c, acc):
         if c.get('k') == 'cli':
